@@ -129,6 +129,18 @@ def fam_resize_wait(rng):
     return dict(exec=dict(kind="reusable", max_workers=n0, timeout=0.5), users={"u1": u1, "h": helper}, fam="resize_wait", single=True)
 
 
+def fam_resize_partial(rng):
+    """some (not all) workers leave by idle timeout, then the pool is asked for exactly the number that is left, then more
+    long tasks than that are submitted: no more than the requested number may run at once"""
+    n0 = rng.choice([2, 3, 4])
+    u1 = [["timeouts_off"]] + [["submit", i + 1, "ok"] for i in range(n0)] + [["wait_all"], ["timeouts_on"],
+          ["wait_live", n0 - 1], ["timeouts_off"], ["reuse", "live", {}]]
+    for i in range(n0 + 1):
+        u1.append(["submit", 20 + i, "long"])
+    u1 += [["settle"]] + [["release", 20 + i] for i in range(n0 + 1)] + [["wait_all"], ["shutdown", True, False]]
+    return dict(exec=dict(kind="reusable", max_workers=n0, timeout=0.5), users={"u1": u1}, fam="resize_partial")
+
+
 def fam_map(rng):
     maxw = rng.choice([1, 2, 3])
     tmo = rng.choice([None, 0.5])
@@ -245,7 +257,7 @@ def fam_reusable(rng):
     return dict(exec=dict(kind="reusable", max_workers=m0, timeout=tmo), users=users, fam="reusable")
 
 
-FAMILIES = dict(resize_wait=fam_resize_wait, map=fam_map, reusable=fam_reusable, respawn_crash=fam_respawn_crash, mixed=fam_mixed, crash=fam_crash, kill=fam_kill, timeout=fam_timeout, saturation=fam_saturation, init=fam_init)
+FAMILIES = dict(resize_partial=fam_resize_partial, resize_wait=fam_resize_wait, map=fam_map, reusable=fam_reusable, respawn_crash=fam_respawn_crash, mixed=fam_mixed, crash=fam_crash, kill=fam_kill, timeout=fam_timeout, saturation=fam_saturation, init=fam_init)
 
 
 def policies(rng, fam):
@@ -254,7 +266,7 @@ def policies(rng, fam):
              change=rng.choice([0.02, 0.05, 0.15]))
     if rng.random() < 0.3:
         p["low"] = [rng.choice(["u", "mgr", "feeder", "W"])]
-    if fam == "resize_wait":
+    if fam in ("resize_wait", "resize_partial"):
         p["tp"] = 0.3
     if fam == "respawn_crash":
         p["low"] = [rng.choice(["u", "u", "W", "mgr"])]
